@@ -364,6 +364,68 @@ func c20BlankDoneVsSetSource(w *fw.Worker, i int, r *fw.Rand) {
 	w.Distinct(fmt.Sprintf("blank-done-race|accepted|%v", got))
 }
 
+// c20BlankReuse: a Blank that served one Dials (and was given a watching inner source) is handed to a second Config
+// after the first was shut down. The second Config may refuse it; if it accepts it, the wrapped watcher's updates must
+// reach the second config like a native watcher's would.
+func c20BlankReuse(w *fw.Worker, i int, r *fw.Rand) {
+	leaves := c20Spec.LeafRefs()
+	c := &gen.Counter{}
+	native := &c10Chain{name: "none"}
+	desc := map[string]any{"mode": "blank-reused-after-shutdown"}
+	ctx1, cancel1 := context.WithCancel(context.Background())
+	blank := &sourcewrap.Blank{}
+	d1, err := dials.Config(ctx1, &c20Cfg{A: -1, S: "dflt"}, blank)
+	if err != nil {
+		cancel1()
+		w.Violation(i, "config-error-with-blank", err.Error(), desc)
+		return
+	}
+	l1 := c20Layer(r, c, native, leaves)
+	watcher := &c20WSrc{c20Src{cur: l1, watching: true}}
+	if serr := blank.SetSource(ctx1, watcher); serr != nil {
+		cancel1()
+		w.Violation(i, "blank-setsource-failed", serr.Error(), desc)
+		return
+	}
+	cancel1()
+	select {
+	case <-dials.VerifMonitorDone(d1):
+	case <-time.After(10 * time.Second):
+		w.Inconclusive(i, "first monitor exit not observed")
+		return
+	}
+	ctx2, cancel2 := context.WithCancel(context.Background())
+	defer cancel2()
+	d2, err2 := dials.Config(ctx2, &c20Cfg{A: -1, S: "dflt"}, blank)
+	w.Count("blank_reuse_cases", 1)
+	if err2 != nil {
+		w.Distinct("blank-reuse|refused")
+		return
+	}
+	// accepted: the watcher lives on inside the Blank, so its next update belongs to the second config
+	l2 := c20Layer(r, c, native, leaves)
+	watcher.mu.Lock()
+	watcher.wctx = ctx2
+	watcher.mu.Unlock()
+	rep := make(chan error, 1)
+	go func() { rep <- watcher.report(l2, true, nil) }()
+	var rerr error
+	select {
+	case rerr = <-rep:
+	case <-time.After(5 * time.Second):
+		rerr = fmt.Errorf("still blocked after 5s")
+	}
+	res, cerr := dials.VerifCompose(&c20Cfg{A: -1, S: "dflt"}, []reflect.Value{l2.Materialize(innerTypeOf(d2))})
+	if cerr != nil {
+		return
+	}
+	if df := gen.Diff(reflect.ValueOf(res).Elem(), reflect.ValueOf(*d2.View())); df != "" {
+		w.Violation(i, "update-from-inner-watcher-lost-after-blank-reuse", fmt.Sprintf("the second Config accepted the Blank, but the inner watcher's update (report error: %v) never reached it: %s", rerr, df), desc)
+		return
+	}
+	w.Distinct("blank-reuse|accepted")
+}
+
 func runC20(w *fw.Worker) {
 	// the exhaustive Blank sequences are distributed over the shards
 	seqs := c20BlankSeqs(4)
@@ -385,6 +447,8 @@ func runC20(w *fw.Worker) {
 			c20BlankConcurrent(w, i, r)
 		case i%24 == 15:
 			c20BlankDoneVsSetSource(w, i, r)
+		case i%24 == 13:
+			c20BlankReuse(w, i, r)
 		case i%24 == 7:
 			// a Done that expired undelivered does not use up the Blank's right (and duty) to forward the next one
 			blankDoneRetry(w, i, r, "C20")
